@@ -34,9 +34,11 @@ New == /\ E.ev = "new" /\ ~Has(E, "error")
        /\ drift' = Note(E.obs.imgLen = imgLen' /\ E.dirPos = HdrLen /\ E.obs.calls = <<<<"pos", E.start, 0>>>>, drift, "new")
        /\ nchk' = nchk + 1
 TGrow == /\ E.ev = "grow" /\ Grow(E.n)
-         /\ viol' = Note(P_C09(E.obs, start, flushed), viol, "C09")
-         /\ drift' = Note(E.obs.imgLen = imgLen' /\ E.obs.fpos = fpos' /\ E.obs.calls = <<>>, drift, "grow")
-         /\ nchk' = nchk + 1
+         /\ IF Has(E.obs, "synth")       \* real dump: growth is inferred from the next flush, nothing was observed here
+              THEN UNCHANGED <<viol, drift, nchk>>
+              ELSE /\ viol' = Note(P_C09(E.obs, start, flushed), viol, "C09")
+                   /\ drift' = Note(E.obs.imgLen = imgLen' /\ E.obs.fpos = fpos' /\ E.obs.calls = <<>>, drift, "grow")
+                   /\ nchk' = nchk + 1
 TFlush == /\ E.ev = "flush" /\ ~Has(E, "error")
           /\ IF E.entry THEN FlushEntry ELSE FlushNone
           /\ viol' = Note(P_C09(E.obs, start, imgLen) /\ P_Flushed(E.obs, start), viol, "C09")
